@@ -45,9 +45,23 @@ def cases(chk):
         ["connect", "authed", "uploadResult:0", "consume:3", "consume:3", "consume:2", "consume:1", "disconnected", "connect", "authed", "uploadResult:0", "consume:3"],
         ["connect", "authed", "uploadResult:0", "serverAsksKeys", "uploadError:0", "disconnected", "connect", "authed"],
         ["connect", "connect", "authed", "uploadResult:0", "serverAsksKeys", "uploadResult:0", "consume:7", "consume:0"],
+        # a key is consumed while the upload that offered it is still unconfirmed, then the next login (with and without a restart)
+        ["connect", "authed", "consume:1", "disconnected", "connect", "authed", "uploadResult:0", "consume:0"],
+        ["connect", "authed", "consume:0", "consume:2", "restart", "connect", "authed", "uploadResult:0", "consume:1", "disconnected", "connect", "authed"],
+        ["connect", "authed", "uploadError:0", "consume:3", "disconnected", "connect", "authed", "consume:0", "restart", "connect", "authed", "uploadResult:0"],
     ]
     for h in corpus:
         yield "history", {"events": h}
+    # login cycles: (connect, authed, a few server / peer events, connection loss or restart) repeated — mostly-valid histories
+    for _ in range(chk.scale(80, 2000)):
+        evs = []
+        for _c in range(r.randint(2, 4)):
+            evs += ["connect", "authed"]
+            for _i in range(r.randint(0, 4)):
+                e = r.choice(["consume", "consume", "uploadResult", "uploadError", "serverAsksKeys"])
+                evs.append(e + (":%d" % r.randrange(6) if e != "serverAsksKeys" else ""))
+            evs.append(r.choice(["disconnected", "restart", "disconnected"]))
+        yield "history", {"events": evs}
     for _ in range(chk.scale(120, 3000)):
         evs = ["connect"]
         for _i in range(r.randint(3, 15)):
